@@ -1,4 +1,5 @@
 import Txtpp.Lemmas.MachineFacts
+import Txtpp.Lemmas.CliFacts
 import Txtpp.Model.Pp
 import Txtpp.Lemmas.TrailingPass
 /-!
@@ -66,5 +67,12 @@ theorem option_changes_only_the_final_line_ending_of_the_output (cfg : Cfg) (hb 
       ((runPass (cfg.withTrailing true) fs src first).2.file? o = some (encodeUtf8 out) ∨
        (runPass (cfg.withTrailing true) fs src first).2.file? o = some (encodeUtf8 (out ++ le)))) :=
   runPass_trailing cfg hb fs src first
+
+/-- entry layer: the option is `-n` and nothing else - on, unless `-n` is given to the command that
+runs (build, only-if-needed build, verify); clean has no such option -/
+theorem cli_trailing_option (p : CliParsed) :
+    (p.sub = none → p.config.trailingNewline = !p.build.noTrailingNewline) ∧
+    (∀ f b, p.sub = some (.verify f b) → p.config.trailingNewline = !b.noTrailingNewline) ∧
+    (∀ f, p.sub = some (.clean f) → p.config.trailingNewline = true) := trailing_iff_not_n p
 
 end C13
